@@ -144,13 +144,37 @@ impl PropertyValue {
 
     /// Decode property value from bytes.
     pub fn decode(bytes: &[u8]) -> Result<Self, DecodeError> {
-        let (value, _) = Self::decode_recursive(bytes)?;
+        let (value, _) = Self::decode_recursive(bytes, 0)?;
         Ok(value)
     }
 
-    fn decode_recursive(bytes: &[u8]) -> Result<(Self, usize), DecodeError> {
+    /// Deepest list/map nesting that can be stored. `decode` reads bytes from disk; without a
+    /// bound a crafted input recurses until the stack overflows. Writers reject deeper values
+    /// (see `exceeds_max_nesting`) so everything that was logged can be read back.
+    pub const MAX_NESTING_DEPTH: usize = 1024;
+    const MAX_DECODE_DEPTH: usize = Self::MAX_NESTING_DEPTH;
+
+    /// True if the value nests lists/maps deeper than `MAX_NESTING_DEPTH`.
+    pub fn exceeds_max_nesting(&self) -> bool {
+        fn walk(v: &PropertyValue, depth: usize) -> bool {
+            if depth > PropertyValue::MAX_NESTING_DEPTH {
+                return true;
+            }
+            match v {
+                PropertyValue::List(l) => l.iter().any(|x| walk(x, depth + 1)),
+                PropertyValue::Map(m) => m.values().any(|x| walk(x, depth + 1)),
+                _ => false,
+            }
+        }
+        walk(self, 0)
+    }
+
+    fn decode_recursive(bytes: &[u8], depth: usize) -> Result<(Self, usize), DecodeError> {
         if bytes.is_empty() {
             return Err(DecodeError::Empty);
+        }
+        if depth > Self::MAX_DECODE_DEPTH {
+            return Err(DecodeError::InvalidLength);
         }
         let ty = bytes[0];
         match ty {
@@ -214,9 +238,14 @@ impl PropertyValue {
                     u32::from_le_bytes(bytes[1..5].try_into().expect("slice length checked"))
                         as usize;
                 let mut pos = 5;
+                // every element takes at least one byte: never size anything by a count the
+                // input cannot back
+                if count > bytes.len() - pos {
+                    return Err(DecodeError::InvalidLength);
+                }
                 let mut items = Vec::with_capacity(count);
                 for _ in 0..count {
-                    let (item, consumed) = Self::decode_recursive(&bytes[pos..])?;
+                    let (item, consumed) = Self::decode_recursive(&bytes[pos..], depth + 1)?;
                     items.push(item);
                     pos += consumed;
                 }
@@ -247,7 +276,7 @@ impl PropertyValue {
                     let key = String::from_utf8(bytes[pos..pos + k_len].to_vec())
                         .map_err(|_| DecodeError::InvalidUtf8)?;
                     pos += k_len;
-                    let (val, consumed) = Self::decode_recursive(&bytes[pos..])?;
+                    let (val, consumed) = Self::decode_recursive(&bytes[pos..], depth + 1)?;
                     map.insert(key, val);
                     pos += consumed;
                 }
